@@ -1,7 +1,7 @@
 (* run_cmd : the single entry point of the extracted model. A command is
    (L (A code :: args)); decoding and encoding are Gallina. *)
 From Coq Require Import List ZArith NArith Bool.
-From BS Require Import Base.Sexp Base.Types Base.Reader Model.Registry Model.SmartQuotes.
+From BS Require Import Base.Sexp Base.Types Base.Reader Model.Registry Model.SmartQuotes Model.Attrs.
 Import ListNotations.
 Open Scope Z_scope.
 
@@ -55,12 +55,63 @@ Definition cmd_c19_detwingle (args : list sexp) : sexp :=
 Definition cmd_read_text (args : list sexp) : sexp :=
   match args with t :: _ => sstr (read_text (gstr t)) | _ => A (-1) end.
 
+(* ---- C17 ---- *)
+Definition g_aval (s : sexp) : aval :=
+  match gL s with
+  | [A 0; x] => VStr (gstr x)
+  | [A 1; x] => VList (glist gstr x)
+  | [A 2; x] => VBool (gbool x)
+  | [A 3; x] => VInt (gZ x)
+  | [A 4; x] => VFloat (gstr x)
+  | _ => VNone
+  end.
+Definition s_aval (v : aval) : sexp :=
+  match v with
+  | VStr x => L [A 0; sstr x]
+  | VList l => L [A 1; slist sstr l]
+  | VBool b => L [A 2; sbool b]
+  | VInt z => L [A 3; A z]
+  | VFloat r => L [A 4; sstr r]
+  | VNone => L [A 5]
+  end.
+Definition g_akey (s : sexp) : akey :=
+  {| k_full := gstr (gnth s 0); k_local := gopt gstr (gnth s 1) |}.
+Definition s_adict (d : adict) : sexp :=
+  slist (fun kv => L [sstr (k_full (fst kv)); s_aval (snd kv)]) d.
+Definition g_adict (s : sexp) : adict := glist (gpair g_akey g_aval) s.
+Definition g_table (s : sexp) : option cdata_table :=
+  gopt (glist (gpair gstr (glist gstr))) s.
+(* a fixed callable used by the harness on both sides: d[k] = d[k] + "," + v *)
+Definition on_dupe_concat (d : adict) (k : akey) (v : aval) : adict :=
+  match dget k d, v with
+  | Some (VStr a), VStr b => dset k (VStr (a ++ 44%N :: b)) d
+  | _, _ => d
+  end.
+Definition cmd_c17 (sub : Z) (args : list sexp) : sexp :=
+  match sub, args with
+  | 0, s :: _ => slist sstr (split_ws (gstr s))
+  | 1, l :: _ => sstr (join_sp (glist gstr l))
+  | 2, t :: tag :: attrs :: _ => s_adict (replace_cdata_list (g_table t) (gstr tag) (g_adict attrs))
+  | 3, kind :: ops :: _ =>
+      let f := match gZ kind with 0 => html_setitem | 1 => xml_setitem | _ => plain_setitem end in
+      s_adict (fold_left (fun d kv => f d (fst kv) (snd kv)) (g_adict ops) [])
+  | 4, pol :: attrs :: _ =>
+      let p := match gZ pol with 0 => DupReplace | 1 => DupIgnore | _ => DupCall end in
+      s_adict (collect_attrs html_setitem on_dupe_concat p (glist (gpair g_akey (gopt gstr)) attrs))
+  | _, _ => A (-1)
+  end.
+
 Definition run_cmd (c : sexp) : sexp :=
   match c with
   | L (A code :: args) =>
       match code with
       | 20 => cmd_c20_lookup args
       | 21 => cmd_c20_construct args
+      | 170 => cmd_c17 0 args
+      | 171 => cmd_c17 1 args
+      | 172 => cmd_c17 2 args
+      | 173 => cmd_c17 3 args
+      | 174 => cmd_c17 4 args
       | 190 => cmd_c19_convert args
       | 191 => cmd_c19_detwingle args
       | 192 => cmd_read_text args
